@@ -882,7 +882,14 @@ impl PG<'_> {
             }
         };
         let result = |s: &mut Self| -> Value {
-            match s.r.below(12) {
+            match s.r.below(14) {
+                // concat whose FIRST term is the most recently allocated heap atom of the environment (path 5), evaluated
+                // before the garbage (body shape 1): a result that begins in bytes older than the candidate's checkpoint
+                12 => {
+                    let n = *s.r.pick(&[1usize, 5, 30, 1100]);
+                    list_json(&[atom_json(&[14]), path_b.clone(), q(atom_json(&s.r.bytes(n)))])
+                }
+                13 => list_json(&[atom_json(&[14]), path_b.clone(), path_a.clone()]),
                 // heap-backed atoms whose CONTENT is a small integer (only concat of >= 2 terms / substr of fresh bytes make them)
                 9 => list_json(&[atom_json(&[14]), q(atom_json(&[0x12])), q(atom_json(&[s.r.below(256) as u8]))]),
                 10 => list_json(&[atom_json(&[12]), list_json(&[atom_json(&[14]), path_a.clone(), q(atom_json(&[0x05, 0x7f]))]), q(int_atom(43)), q(int_atom(44 + s.r.below(2) as i64))]),
